@@ -87,6 +87,7 @@ class ActionSummary(object):
     table_delta = self._tables[table_id]
     orig_table_id = self._table_renames.original_name(table_id)
     orig_col_id = table_delta.column_renames.original_name(col_id)
+    keyed_table_id = table_id     # self._tables is keyed by the latest (possibly defunct) name
     table_id = root_name(table_id)
     col_id = root_name(col_id)
 
@@ -105,7 +106,7 @@ class ActionSummary(object):
       return
 
     ## Maybe add one or two undo update actions for rows that existed before the change.
-    row_ids_before = self.filter_out_new_rows(table_id, full_row_ids)
+    row_ids_before = self.filter_out_new_rows(keyed_table_id, full_row_ids)
 
     if defunct:
       preserved_row_ids = []
